@@ -512,35 +512,89 @@ def check_broadcast_n(env: Env, shapes, spells, method="broadcast"):
     return None
 
 
-def check_inline_boundary(env: Env, a, b):
-    """The judgement at a call boundary: inline(model with input type b)(value of type a)."""
-    from onnx import TensorProto, helper
+INLINE_FORMS = ["single", "pos", "kw", "kw-reversed", "mixed-1", "mixed-2", "pos+default-omitted", "pos+default-pos",
+                "kw+default-kw", "mixed+default-kw", "override-default-kw", "override-default-pos"]
+
+
+def check_inline_boundary(env: Env, a, b, form="single", slot=0, spec=None):
+    """The judgement at a call boundary: inline(model whose input `x` is declared with type b)(value of type a),
+    the value handed over in the given argument-passing form (positional / keyword / mixed / with a defaulted
+    input omitted or given / x itself a defaulted input that is overridden), x at position `slot` of the signature."""
+    import numpy as np
+    from onnx import TensorProto, helper, numpy_helper
 
     from spox import argument, inline
 
     tb, ta = env.mk(b), env.mk(a)
-    # a model whose only input is declared with type b (unused; the output is a constant), so that no
-    # operator's own type inference is involved: only the boundary judgement decides
+    f32 = helper.make_tensor_type_proto(TensorProto.FLOAT, [])
+    if form == "single":
+        names = ["x"]
+    else:
+        names = ["p", "q"]
+        names.insert(slot % 3, "x")
+    inputs = [helper.make_value_info(n, tb._to_onnx() if n == "x" else f32) for n in names]
+    inits = []
+    if "default" in form and not form.startswith("override"):
+        inputs.append(helper.make_value_info("d", helper.make_tensor_type_proto(TensorProto.FLOAT, [2])))
+        inits.append(numpy_helper.from_array(np.zeros(2, np.float32), "d"))
+    if form.startswith("override"):
+        # x itself has a default (an initializer of the declared type): needs a concrete numeric tensor type
+        sh, dt = getattr(tb, "shape", None), getattr(tb, "dtype", None)
+        if sh is None or dt is None or dt.kind not in "fiu" or any(not isinstance(d, int) for d in sh):
+            raise NotApplicable(form)
+        inits.append(numpy_helper.from_array(np.zeros(sh, dt), "x"))
+    # the inputs are unused (the output is a constant), so that no operator's own type inference is involved:
+    # only the boundary judgement decides
     graph = helper.make_graph(
         [helper.make_node("Constant", [], ["y"], value=helper.make_tensor("v", TensorProto.FLOAT, [], [0.0]))],
-        "g",
-        [helper.make_value_info("x", tb._to_onnx())],
-        [helper.make_tensor_value_info("y", TensorProto.FLOAT, [])],
-    )
+        "g", inputs, [helper.make_tensor_value_info("y", TensorProto.FLOAT, [])], initializer=inits)
     model = helper.make_model(graph, opset_imports=[helper.make_opsetid("", 17)])
     with warnings.catch_warnings():
         warnings.simplefilter("ignore")
-        arg = argument(ta)
+        vals = {"x": argument(ta), "p": argument(env.ts.Tensor(np.float32, ())), "q": argument(env.ts.Tensor(np.float32, ())),
+                "d": argument(env.ts.Tensor(np.float32, (2,)))}
+        if form in ("single", "pos", "pos+default-omitted"):
+            args, kwargs = [vals[n] for n in names], {}
+        elif form == "kw":
+            args, kwargs = [], {n: vals[n] for n in names}
+        elif form == "kw-reversed":
+            args, kwargs = [], {n: vals[n] for n in reversed(names)}
+        elif form in ("mixed-1", "mixed-2"):
+            k = 1 if form == "mixed-1" else 2
+            args, kwargs = [vals[n] for n in names[:k]], {n: vals[n] for n in names[k:]}
+        elif form == "pos+default-pos":
+            args, kwargs = [vals[n] for n in names] + [vals["d"]], {}
+        elif form == "kw+default-kw":
+            args, kwargs = [], {n: vals[n] for n in names + ["d"]}
+        elif form == "mixed+default-kw":
+            args, kwargs = [vals[names[0]]], {n: vals[n] for n in names[1:] + ["d"]}
+        elif form == "override-default-kw":
+            args, kwargs = [], {n: vals[n] for n in names}
+        elif form == "override-default-pos":
+            args, kwargs = [vals[n] for n in names], {}
+        else:
+            raise ValueError(form)
         try:
-            inline(model)(arg)
+            inline(model)(*args, **kwargs)
             accepted = True
         except TypeError:
             accepted = False
+    if spec is not None:  # the same call for the model (driver op "call"), types by class id
+        f32s, f32v = env.enc(vals["p"].type), env.enc(vals["d"].type)
+        decl_t = {"x": env.enc(tb), "p": f32s, "q": f32s, "d": f32v}
+        val_t = {"x": env.enc(ta), "p": f32s, "q": f32s, "d": f32v}
+        key_of = {id(v): k for k, v in vals.items()}
+        spec.update({"decl": [[i.name, decl_t[i.name]] for i in inputs],
+                     "dflt": [[t.name, decl_t[t.name]] for t in inits],
+                     "pos": [val_t[key_of[id(v)]] for v in args], "kw": [[k, val_t[k]] for k in kwargs], "real": accepted})
     want = has_common_value(env, a, b)
     if accepted != want:
         how = "accepted-without-common-value" if accepted else "rejected-with-common-value"
+        shown = ", ".join([("x" if v is vals["x"] else "·") for v in args] + [f"{k}={'x' if k == 'x' else '·'}" for k in kwargs])
         return (f"inline-boundary:{how}:{aspect(a, b)}",
-                f"inline(model: x is {tb!r})(value of type {ta!r}) {'accepted' if accepted else 'TypeError'}")
+                f"inline(model: inputs {names + (['d (default)'] if 'd' in [i.name for i in inits] else [])}, x is {tb!r}"
+                f"{' with a default' if form.startswith('override') else ''})({shown}) with x of type {ta!r} "
+                f"{'accepted' if accepted else 'TypeError'} [{form}]")
     return None
 
 
@@ -672,7 +726,7 @@ CHECKS = {
     "broadcast": lambda env, c: check_broadcast(env, c["a"], c["b"], None, c.get("spell", "Shape"),
                                                 c.get("self_spell", "Shape"), c.get("method", "broadcast")),
     "broadcast_n": lambda env, c: check_broadcast_n(env, c["shapes"], c["spells"], c.get("method", "broadcast")),
-    "inline": lambda env, c: check_inline_boundary(env, c["a"], c["b"]),
+    "inline": lambda env, c: check_inline_boundary(env, c["a"], c["b"], c.get("form", "single"), c.get("slot", 0)),
 }
 
 
@@ -749,6 +803,10 @@ def run(ck: core.Check):
     # ---------------------------------------------------------------- domains
     rt_types = []
     some_shapes = [None, [], [2], ["N", None, 3], [0, "M"]]
+    # names of symbolic dimensions: anything a user may write, in particular names that look like the ones other
+    # layers invent or strip (`unk__<n>` of onnx shape inference), digits, keywords of the simple format, non-ASCII
+    DIM_NAMES = ["unk__0", "unk__batch", "unk__", "unk_1", "UNK__1", "xunk__0", "7", "-1", "None", "?", "N.1", "a b", "名前",
+                 "batch_size", "*", "N" * 70, "\\n", "dim_param", "0x10", "1e3", "_", "é"]
     for r in table["spellings"]:
         if r["cls"] is None:
             continue
@@ -761,6 +819,14 @@ def run(ck: core.Check):
         for w in WRAPS:
             for sh in nshapes:
                 rt_types.append(wrap(["t", e, sh], w))
+    name_types = []
+    for i, nm in enumerate(DIM_NAMES):
+        e = E[i % 2]
+        for sh in ([nm], [nm, 3], [2, nm], [nm, nm], [nm, None, "N"], [DIM_NAMES[(i + 1) % len(DIM_NAMES)], nm]):
+            name_types.append(["t", e, sh])
+        for w in WRAPS:
+            name_types.append(wrap(["t", e, [nm, 3]], w))
+    rt_types.extend(name_types)
     types = [["any"], ["s", ["any"]], ["o", ["any"]]]
     for e in E:
         for sh in shapes:
@@ -769,6 +835,8 @@ def run(ck: core.Check):
         for e in E:
             for sh in nshapes:
                 types.append(wrap(["t", e, sh], w))
+    for sh in (["unk__0"], ["unk__0", 3], [2, "unk__batch"], ["7"], ["名前", "unk__1"], ["None", None]):
+        types.append(["t", E[0], sh])  # pool names are wildcards like any other name (judgement, equality, call boundary)
     for sh in [None, [], [2], ["N"]]:
         types.append(["t", "py:str", sh])
         types.append(["t", "str:q", sh])  # alias spelling of int64
@@ -1264,6 +1332,9 @@ def run(ck: core.Check):
         for c in all_codes:
             for sh in [None, [], [2, "N", None, ""], [""]]:
                 protos.append(["t", c, sh])
+        for i, nm in enumerate(DIM_NAMES):  # dim_param values read from a proto must come back verbatim
+            protos.append(["t", all_codes[i % len(all_codes)], [nm, 3, nm]])
+            protos.append(wrap(["t", 1, [2, nm]], WRAPS[i % len(WRAPS)]))
         for w in WRAPS:
             protos.append(wrap(["t", rng.choice(all_codes), rng.choice([None, [3, "", None]])], w))
         real_from = []
@@ -1299,9 +1370,45 @@ def run(ck: core.Check):
     # ---------------------------------------------------------------- the call boundary (public API: inline)
     inl_stats = {"compatible": 0, "incompatible": 0, "skipped": 0}
 
+    call_specs = []
+
+    def facet_inline_corr():
+        """the model's `callAccepted` (argument binding + judgement on every bound value) vs the real call; plus
+        malformed calls (a name given twice, an unknown keyword, a missing argument, too many positionals)"""
+        import numpy as np
+        from onnx import TensorProto, helper
+
+        from spox import argument, inline
+
+        items = [sp for sp, _, _, _ in call_specs]
+        f32 = env.enc(env.ts.Tensor(np.float32, ()))
+        g = helper.make_graph([helper.make_node("Constant", [], ["y"], value=helper.make_tensor("v", TensorProto.FLOAT, [], [0.0]))], "g",
+                              [helper.make_tensor_value_info(n_, TensorProto.FLOAT, []) for n_ in ("p", "x", "q")],
+                              [helper.make_tensor_value_info("y", TensorProto.FLOAT, [])])
+        call = inline(helper.make_model(g, opset_imports=[helper.make_opsetid("", 17)]))
+        v = lambda: argument(env.ts.Tensor(np.float32, ()))  # noqa: E731
+        for pos_n, kws in [(2, ["x", "q"]), (3, ["z"]), (2, []), (4, []), (0, ["p", "x"]), (0, ["p", "x", "q", "z"]), (1, ["p", "x", "q"]),
+                           (3, []), (0, ["q", "p", "x"])]:
+            try:
+                call(*[v() for _ in range(pos_n)], **{k_: v() for k_ in kws})
+                real = True
+            except TypeError:
+                real = False
+            items.append({"decl": [[n_, f32] for n_ in ("p", "x", "q")], "dflt": [], "pos": [f32] * pos_n, "kw": [[k_, f32] for k_ in kws],
+                          "real": real, "malformed": (pos_n, kws)})
+        out = drv.ask_many("C13", [{"op": "call", "items": [{k_: it[k_] for k_ in ("decl", "dflt", "pos", "kw")} for it in items]}])[0]
+        if "error" in out:
+            note("sub", str(out))
+            return
+        for it, m_ in zip(items, out["call"]):
+            if m_ != it["real"]:
+                note("sub", f"inline call boundary: model accepted={m_} real accepted={it['real']} for {({k_: it[k_] for k_ in ('pos', 'kw', 'decl', 'dflt')})}"[:600])
+        ck.count(None, len(items))
+        ck.cov["inline_call_model_cases"] = len(items)
+
     def facet_inline():
         # more cases when the direct sweep of _subtype could not be observed
-        n_inl = ck.pick(60, 600) * (5 if "_subtype sweep" in unobservable else 1)
+        n_inl = ck.pick(240, 1800) * (5 if "_subtype sweep" in unobservable else 1)
         for k in range(n_inl):
             a = rng.choice(plain)
             b = rng.choice(plain)
@@ -1309,8 +1416,22 @@ def run(ck: core.Check):
                 wa, la = skeleton(a)
                 cand = [t for t in plain if skeleton(t)[0] == wa and skeleton(t)[1][1] == la[1]]
                 b = rng.choice(cand)
+            form, slot = INLINE_FORMS[k % len(INLINE_FORMS)], (k // len(INLINE_FORMS)) % 3
+            if form.startswith("override"):
+                # x with a default: the declared type must be a concrete numeric tensor type
+                conc = [t for t in plain if t[0] == "t" and t[1] in E and t[2] is not None and all(isinstance(d, int) for d in t[2])]
+                b = rng.choice(conc)
+                if k % 2 == 0:
+                    a = rng.choice([t for t in plain if t[0] == "t" and t[1] == b[1]])
+            inl_stats.setdefault("forms", {}).setdefault(form, 0)
+            inl_stats["forms"][form] += 1
+            spec = {}
             try:
-                bad = check_inline_boundary(env, a, b)
+                bad = check_inline_boundary(env, a, b, form, slot, spec)
+                if "decl" in spec:
+                    call_specs.append((spec, a, b, form))
+            except NotApplicable:
+                continue
             except Exception as e:  # noqa: BLE001  (a model input type spox refuses to build is not a verdict)
                 inl_stats["skipped"] += 1
                 if inl_stats["skipped"] <= 3:
@@ -1319,11 +1440,13 @@ def run(ck: core.Check):
             ck.count(("inline", repr(a), repr(b)))
             inl_stats["compatible" if has_common_value(env, a, b) else "incompatible"] += 1
             if bad:
-                ck.failure(bad[0], bad[1], {"check": "inline", "a": a, "b": b})
+                ck.failure(bad[0], bad[1], {"check": "inline", "a": a, "b": b, "form": form, "slot": slot})
         if inl_stats["skipped"] > n_inl // 2:
             ck.broken("correspondence", "C13 inline call boundary not observable", f"{inl_stats['skipped']} of {n_inl} cases raised")
 
     guard("inline call boundary", facet_inline)
+    if drv:
+        guard("inline call boundary correspondence", facet_inline_corr)
 
     ck.cov.update({
         "correspondence_mismatches": mism,
